@@ -41,13 +41,14 @@ def _enc(x, vid_of):
     raise c06_pat.TranslationError(f"bound object {type(x).__name__}")
 
 
-class RealCase:
-    """One (pattern description, host description): the real pattern / rules and the real host model."""
+class RealPattern:
+    """The real pattern (or, with commute, the rules of the commuted rule set) built through the public API."""
 
-    def __init__(self, pdesc, hdesc, commute=False):
+    def __init__(self, pdesc, commute=False):
         from onnxscript.rewriter import pattern as P
-        self.pdesc, self.hdesc, self.commute = pdesc, hdesc, commute
+        self.pdesc, self.commute = pdesc, commute
         self.build_error = None
+        self.abstract_error = None
         try:
             fn = c06_pat.build_pattern_fn(pdesc)
             if commute:
@@ -58,26 +59,48 @@ class RealCase:
         except Exception as e:  # the API refused the pattern (or commute() raised)
             self.build_error = f"{type(e).__name__}"
             self.variants = []
+        self.abstract = None
+        if self.variants:
+            try:
+                self.abstract = c06_pat.abstract_of_real(self.variants[0]._target_pattern)
+                for v in self.variants[1:]:
+                    c06_pat.abstract_of_real(v._target_pattern)       # fail-closed on the copies as well
+            except c06_pat.TranslationError as e:
+                self.abstract_error = str(e)
+        self.P_spec = c06_pat.abstract_of_desc(pdesc)
+        self.roots_spec = c06_spec.spec_roots(self.P_spec)
+        self.features = features(pdesc, commute)
+        self.spec_variants = None
+        if commute:
+            self.spec_variants = []
+            for vd in swap_variants(pdesc):
+                Pv = c06_pat.abstract_of_desc(vd)
+                self.spec_variants.append((Pv, c06_spec.spec_roots(Pv)))
+        self.coq_name = None
+
+
+class RealHost:
+    def __init__(self, hdesc):
+        self.hdesc = hdesc
         self.model, self.graph, self.vals, self.nodes = c06_pat.build_host(hdesc)
         self.vid_of = {id(v): k for k, v in self.vals.items()}
         self.nid_of = {id(n): j for j, n in enumerate(self.nodes)}
+        self.H = c06_spec.Host(hdesc)
+        self.nested = bool(hdesc.get("outer_nodes") or hdesc.get("outer_inputs") or hdesc.get("outer_consts"))
+        self.coq_name = None
 
-    def abstract(self):
-        return [c06_pat.abstract_of_real(v._target_pattern) for v in self.variants]
 
-    def match(self, root, rm):
-        """-> ("ok", variant index, bindings, nodes, outs) | ("fail",) | ("raise", name)"""
-        if self.build_error:
-            return ("raise", self.build_error)
-        for k, v in enumerate(self.variants):
-            try:
-                r = v.match(self.model, self.graph, self.nodes[root], check_nodes_are_removable=rm)
-            except Exception as e:
-                return ("raise", type(e).__name__)
-            if r:
-                b = {name: _enc(x, self.vid_of) for name, x in r.bindings.items()}
-                return ("ok", k, b, [self.nid_of[id(n)] for n in r.nodes], [_enc(x, self.vid_of) for x in r.outputs])
-        return ("fail",)
+def real_match(rp, rh, root, rm):
+    """-> ("ok", variant index, bindings, nodes, outs) | ("fail",) | ("raise", name)"""
+    for k, v in enumerate(rp.variants):
+        try:
+            r = v.match(rh.model, rh.graph, rh.nodes[root], check_nodes_are_removable=rm)
+        except Exception as e:
+            return ("raise", type(e).__name__)
+        if r:
+            b = {name: _enc(x, rh.vid_of) for name, x in r.bindings.items()}
+            return ("ok", k, b, [rh.nid_of[id(n)] for n in r.nodes], [_enc(x, rh.vid_of) for x in r.outputs])
+    return ("fail",)
 
 
 # ----------------------------------------------------------------------------- features / keys
@@ -206,47 +229,68 @@ class Batch:
         self.cases = []         # coq case literals
         self.meta = []
         self.npat = self.ngraph = 0
-        self.stats = {"triples": 0, "matched": 0, "trivial_root_mismatch": 0, "or_committed_choice": 0,
-                      "multi_instance": 0, "raises": 0, "not_removable": 0}
+        self.pcache = {}
+        self.hcache = {}
+        self.stats = {"triples": 0, "matched": 0, "root_op_mismatch": 0, "or_committed_choice": 0,
+                      "multi_instance": 0, "raises": 0, "not_removable": 0, "compared_in_coq": 0, "nested_hosts": 0,
+                      "commute_pairs": 0}
 
-    def add(self, pdesc, hdesc, commute=False, tag=""):
+    def pattern(self, pdesc, commute):
+        k = (json.dumps(pdesc, sort_keys=True), commute)
+        if k not in self.pcache:
+            self.pcache[k] = RealPattern(pdesc, commute)
+        return self.pcache[k]
+
+    def host(self, hdesc, cache=True):
+        if not cache:
+            return RealHost(hdesc)
+        k = json.dumps(hdesc, sort_keys=True)
+        if k not in self.hcache:
+            self.hcache[k] = RealHost(hdesc)
+        return self.hcache[k]
+
+    def add(self, pdesc, hdesc, commute=False, tag="", coq_rate=1.0, cache_host=False):
         ctx = self.ctx
-        rc = RealCase(pdesc, hdesc, commute)
-        feats = features(pdesc, commute)
-        if hdesc.get("outer_nodes") or hdesc.get("outer_inputs") or hdesc.get("outer_consts"):
-            feats = sorted(feats + ["other-graph-values"])
+        rp = self.pattern(pdesc, commute)
+        if rp.build_error:
+            if not getattr(rp, "reported", False):
+                rp.reported = True
+                self.build_errors.append({"p": pdesc, "commute": commute, "error": rp.build_error, "features": rp.features})
+            return
+        if rp.abstract_error:
+            if not getattr(rp, "reported", False):
+                rp.reported = True
+                ctx.tie_broken("translator", "pattern-ir", f"{rp.abstract_error} in {json.dumps(pdesc)}")
+            return
+        rh = self.host(hdesc, cache_host)
+        H = rh.H
+        feats = rp.features if not rh.nested else sorted(rp.features + ["other-graph-values"])
         fkey = "+".join(feats) or "plain"
-        P_spec = c06_pat.abstract_of_desc(pdesc)
-        H = c06_spec.Host(hdesc)
-        try:
-            variants = rc.abstract()
-        except c06_pat.TranslationError as e:
-            ctx.tie_broken("translator", "pattern-ir", f"{e} in {json.dumps(pdesc)}")
-            return
-        roots_spec = c06_spec.spec_roots(P_spec)
-        if rc.build_error:
-            self.build_errors.append({"p": pdesc, "commute": commute, "error": rc.build_error, "features": feats})
-            return
-        gname = f"g{self.ngraph}"
-        self.ngraph += 1
-        self.defs[gname] = f"Definition {gname} := {c06_pat.c_hgraph(hdesc)}."
-        pn = f"p{self.npat}"
-        self.npat += 1
-        self.defs[pn] = f"Definition {pn} := {c06_pat.c_gpat(variants[0])}."
-        pnames = [pn]
+        self.stats["nested_hosts"] += rh.nested
+        self.stats["commute_pairs"] += commute
+        P_spec, roots_spec = rp.P_spec, rp.roots_spec
+        root_np = P_spec["nodes"][roots_spec[0]] if roots_spec else None
         small = len(P_spec["nodes"]) <= 4 and len(H.nodes) <= 5
         for root in range(H.first_own, len(H.nodes)):
-            for rm in (False, True):
-                obs = rc.match(root, rm)
+            hn = H.nodes[root]
+            trivial = root_np is not None and not (c06_spec.spat_matches(root_np["op"], hn["op"])
+                                                   and c06_spec.spat_matches(root_np["dom"], hn.get("dom") or ""))
+            for rm in ((False,) if trivial else (False, True)):
+                obs = real_match(rp, rh, root, rm)
                 self.stats["triples"] += 1
                 if obs[0] == "raise":
                     self.stats["raises"] += 1
+                if trivial and obs[0] == "fail":
+                    # the operator of the root does not match: no sigma can be an instance
+                    self.stats["root_op_mismatch"] += 1
+                    ctx.case(("root-op-mismatch", fkey))
+                    if ctx.rng.random() >= 0.1 * coq_rate:
+                        continue
                 # ---- the declarative meaning, by brute force
                 if commute:
                     insts = []
-                    for vd in swap_variants(pdesc):
-                        Pv = c06_pat.abstract_of_desc(vd)
-                        for i in c06_spec.instances_search(Pv, H, c06_spec.spec_roots(Pv), root):
+                    for Pv, rv in rp.spec_variants:
+                        for i in c06_spec.instances_search(Pv, H, rv, root):
                             if not rm or c06_spec.removable(H, i["nodes"], i["outs"]):
                                 insts.append(i)
                 else:
@@ -265,37 +309,47 @@ class Batch:
                         self.stats["multi_instance"] += 1
                 sigma = None
                 verdict = None
-                if insts is not None:
-                    if obs[0] == "ok":
-                        expl = [i for i in insts if i["bindings"] == obs[2] and i["nodes"] == frozenset(obs[3]) and i["outs"] == obs[4]]
-                        if expl:
-                            if variants and not commute:
-                                expl[0]["model_keys"] = model_keys(expl[0], P_spec, variants[0], H)
-                                sigma = c_sigma(expl[0], variants[0])
-                        else:
-                            verdict = "unsound"
-                    elif obs[0] == "fail" and insts:
-                        verdict = "missed"
-                    elif obs[0] == "raise":
-                        verdict = "raises"
                 if obs[0] == "ok":
+                    expl = [i for i in insts if i["bindings"] == obs[2] and i["nodes"] == frozenset(obs[3]) and i["outs"] == obs[4]]
+                    if expl:
+                        if not commute:
+                            expl[0]["model_keys"] = model_keys(expl[0], P_spec, rp.abstract, H)
+                            sigma = c_sigma(expl[0], rp.abstract)
+                    else:
+                        verdict = "unsound"
                     self.stats["matched"] += 1
-                ctx.case((fkey, obs[0], verdict, rm, len(insts) if insts is not None else -1))
-                self.uses.append((pn, gname))
-                roots_real = variants[0]["roots"]
+                elif obs[0] == "fail" and insts:
+                    verdict = "missed"
+                elif obs[0] == "raise":
+                    verdict = "raises"
+                if not trivial:
+                    ctx.case((fkey, obs[0], verdict, rm, min(len(insts), 2)))
+                if verdict is None and ctx.rng.random() >= coq_rate:
+                    continue                   # agreement with the spec; the model comparison is sampled
+                if rp.coq_name is None:
+                    rp.coq_name = f"p{self.npat}"
+                    self.npat += 1
+                    self.defs[rp.coq_name] = f"Definition {rp.coq_name} := {c06_pat.c_gpat(rp.abstract)}."
+                if rh.coq_name is None:
+                    rh.coq_name = f"g{self.ngraph}"
+                    self.ngraph += 1
+                    self.defs[rh.coq_name] = f"Definition {rh.coq_name} := {c06_pat.c_hgraph(hdesc)}."
+                self.stats["compared_in_coq"] += 1
+                self.uses.append((rp.coq_name, rh.coq_name))
                 self.cases.append(
-                    f"(mkCase {pn} {clist(roots_real, cnat)} {gname} {cnat(root)} {cbool(rm)} {cbool(commute)} {c_obs(obs)} {copt(sigma)})")
+                    f"(mkCase {rp.coq_name} {clist(rp.abstract['roots'], cnat)} {rh.coq_name} {cnat(root)} {cbool(rm)} "
+                    f"{cbool(commute)} {c_obs(obs)} {copt(sigma)})")
                 self.meta.append({"p": pdesc, "h": hdesc, "root": root, "rm": rm, "commute": commute, "obs": obs,
-                                  "n_instances": None if insts is None else len(insts), "verdict": verdict,
+                                  "n_instances": len(insts), "verdict": verdict,
                                   "features": feats, "or": "or" in feats, "tag": tag,
-                                  "instances": None if insts is None else [
-                                      {"bindings": sorted(i["bindings"].items()), "nodes": sorted(i["nodes"]), "outs": i["outs"]} for i in insts[:3]]})
+                                  "instances": [{"bindings": sorted(i["bindings"].items()), "nodes": sorted(i["nodes"]), "outs": i["outs"]}
+                                                for i in insts[:3]]})
 
     def evaluate(self):
         """Run the Coq side; returns {case index: code}."""
         ctx = self.ctx
         codes = {}
-        shard = 400
+        shard = 800
         bodies = []
         spans = []
         for lo in range(0, len(self.cases), shard):
@@ -418,11 +472,15 @@ def run(ctx):
     ctx.assume("OrValue is committed-choice (first alternative that matches locally; later conflicts do not re-open it), as documented in "
                "node_value_checkers.md; instances missed only for that reason are counted (or_committed_choice) and not flagged")
     ctx.assume("tag variables of OR patterns are fresh names; constants are float32 scalars / 1-D lists away from the tolerance boundary")
-    ctx.check_props()
+    ctx.check_props(extra_files=["Match/Corr.v"])
+    import time
     batch = Batch(ctx)
     n = 0
-    for pdesc, hdesc, commute, tag in c06_gen.cases(ctx):
-        batch.add(pdesc, hdesc, commute, tag)
+    t0 = time.time()
+    for item in c06_gen.cases(ctx):
+        pdesc, hdesc, commute, tag = item[:4]
+        opts = item[4] if len(item) > 4 else {}
+        batch.add(pdesc, hdesc, commute, tag, **opts)
         n += 1
     refused = 0
     for be in batch.build_errors:
@@ -441,14 +499,56 @@ def run(ctx):
         else:
             ctx.violation(f"C06:commute-raises:{be['error']}:{'+'.join(be['features'])}", "building the commuted rule set raises",
                           {"p": be["p"], "commute": True})
+    t1 = time.time()
     codes = batch.evaluate()
+    t2 = time.time()
+    ctx.cover(seconds_matching_and_spec=round(t1 - t0, 1), seconds_model_in_coq=round(t2 - t1, 1))
     k = decide(ctx, batch, codes)
     keeps = (bool(k & 2), bool(k & 1), bool(k & 4))
     ctx.obligation("correspondence: real matcher = Match/Matcher.v `run` (bindings, node order, outputs) on every case, for one setting of the merge flags",
                    not any(t["kind"] == "correspondence" for t in ctx.ties))
+    # C06_match_sound is proved for the repaired setting only.  When the implementation exhibits another setting, either a
+    # concrete non-instance was reported above (finding), or the theorem simply does not cover this implementation.
+    seen = {k_ for k_, _ in ctx.known_hits} | {v["key"] for v in ctx.violations}
+    merge_explained = F16_KEY_UNSOUND in seen or F16_KEY_MISSED in seen
+    out_explained = OUT_KEY in seen
+    uncovered = []
+    if not (keeps[0] and keeps[1]) and not merge_explained:
+        uncovered.append(f"merge keeps value_bindings={keeps[0]}, node_bindings={keeps[1]}")
+    if not keeps[2] and not out_explained:
+        uncovered.append("an output-count mismatch is not recorded as a failure")
+    ctx.obligation("C06_match_sound applies to the setting of the flags the implementation exhibits (or the deviation is a reported finding)",
+                   not uncovered, "; ".join(uncovered))
+    if uncovered:
+        ctx.tie_broken("proof", "C06_match_sound", "the implementation behaves like the model with " + "; ".join(uncovered) +
+                       ", for which soundness is not proved, and no non-instance was found in this run")
     ctx.cover(pattern_host_pairs=n, patterns_refused_by_api=refused, merge_keeps_value_bindings=keeps[0], merge_keeps_node_bindings=keeps[1],
               output_count_failure_recorded=keeps[2], match_sound_applies_to_implementation=all(keeps), **batch.stats)
     for m in batch.meta[:: max(1, len(batch.meta) // 5)][:5]:
         ctx.sample({"pattern": m["p"], "host": m["h"], "root": m["root"], "removable": m["rm"], "observed": m["obs"][0]})
     if ctx.tier == "thorough":
         ctx.coqchk(["Props.C06"])
+
+
+def replay(doc):
+    """./check C06 --replay evidence/replays/C06_xxx.json : run the recorded (pattern, host, root) on the real matcher again."""
+    r = doc["replay"]
+    if "h" not in r:
+        rp = RealPattern(r["p"], bool(r.get("commute")))
+        print(json.dumps({"key": doc["key"], "building the (commuted) pattern": rp.build_error or "ok"}))
+        return 1 if rp.build_error else 0
+    rp = RealPattern(r["p"], bool(r.get("commute")))
+    rh = RealHost(r["h"])
+    obs = real_match(rp, rh, r["root"], r["rm"])
+    if r.get("commute"):
+        insts = [i for Pv, rv in rp.spec_variants for i in c06_spec.instances_search(Pv, rh.H, rv, r["root"])]
+    else:
+        insts = c06_spec.instances_search(rp.P_spec, rh.H, rp.roots_spec, r["root"])
+    if r["rm"]:
+        insts = [i for i in insts if c06_spec.removable(rh.H, i["nodes"], i["outs"])]
+    ok = (obs[0] == "fail" and not insts) or (obs[0] == "ok" and any(
+        i["bindings"] == obs[2] and i["nodes"] == frozenset(obs[3]) and i["outs"] == obs[4] for i in insts))
+    print(json.dumps({"key": doc["key"], "observed": obs, "instances": [
+        {"bindings": sorted(i["bindings"].items()), "nodes": sorted(i["nodes"]), "outs": i["outs"]} for i in insts[:5]],
+        "property_holds_here": ok}, default=str))
+    return 0 if ok else 1
